@@ -474,6 +474,39 @@ func init() {
 		},
 		outside: "inputs wider/deeper than the bound; custom marshalers (C14)",
 	})
+
+	register(&property{
+		id: "C04",
+		gen: func(tier string, seed int) []symx.CaseSpec {
+			var out []symx.CaseSpec
+			// hand-picked: empty stacks of every kind, nested empties, condition forms
+			for k := 0; k < 5; k++ {
+				out = append(out, cs("VH_C04", 1, 2, k, 0), cs("VH_C04_Equal", 1, 2, k, 0))
+				out = append(out, cs("VH_C04", 2, 2, k, 1, 5, k, 0), cs("VH_C04", 2, 2, k, 2, 7, 1, 1, 0, 4, 2))
+			}
+			n := q(tier, 300, 3000)
+			r := uint64(seed)*2654435761 + 4
+			for i := 0; i < n; i++ {
+				var digits []int
+				for k := 0; k < 40; k++ {
+					r = r*6364136223846793005 + 1442695040888963407
+					digits = append(digits, int((r>>33)%840))
+				}
+				depth := 2 + i%2
+				h := "VH_C04"
+				if i%3 == 2 {
+					h = "VH_C04_Equal"
+				}
+				out = append(out, cs(h, append([]int{depth, 2 + i%2}, digits...)...))
+			}
+			return out
+		},
+		boundsText: map[string]string{
+			"quick":    "20 hand-picked + 300 seeded trees of depth<=3, width<=3 over AND/OR/NOT/LIST/BASIC (empty stacks included), Conditions with primitive/Stack/Condition expressions, text/int/bool/nil leaves; leaf ints are unconstrained 64-bit variables, leaf bools and the root fold bit symbolic; the first operator code any of 1..6 (solver variable), the others and inner fold bits drawn with the shape",
+			"thorough": "20 hand-picked + 3000 seeded trees",
+		},
+		outside: "leaves that are themselves []any; custom (un)marshalers (C14); Conditions without operator (C06/C16 inputs); capacities (Unmarshal does not carry them)",
+	})
 }
 
 var _ = fmt.Sprint
